@@ -171,21 +171,21 @@ Lemma owned_text_roundtrip p s :
 Proof. intros F U. apply main_read_roundtrip; [assumption|now apply free_text_value_ok]. Qed.
 
 (** ** HISTORICAL readers (before bb69bb9 / 2f36fc5): read back exactly outside the positions
-    then borrowed; facts about [rocfl_read_pos] / [validator_read_pos], not about the current code *)
+    then borrowed; facts about [main_read_pos_before_fix] / [val_read_pos_before_fix], not about the current code *)
 Lemma rocfl_read_roundtrip_before_fix p s :
-  utf8_valid s = true -> pos_value_ok p s = true -> (pos_borrowed p && needs_escape s) = false ->
-  rocfl_read_pos p (serde_escape s) = Some s.
+  utf8_valid s = true -> pos_value_ok p s = true -> (main_pos_borrowed_before_fix p && needs_escape s) = false ->
+  main_read_pos_before_fix p (serde_escape s) = Some s.
 Proof.
-  intros U V K. unfold rocfl_read_pos. rewrite (read_with_escape _ _ U K). now apply post_visit_ok.
+  intros U V K. unfold main_read_pos_before_fix. rewrite (read_with_escape _ _ U K). now apply post_visit_ok.
 Qed.
 
 Lemma rocfl_read_wedge_before_fix p s :
-  (pos_borrowed p && needs_escape s) = true -> rocfl_read_pos p (serde_escape s) = None.
-Proof. intros K. unfold rocfl_read_pos. now rewrite (read_with_escape_fails _ _ K). Qed.
+  (main_pos_borrowed_before_fix p && needs_escape s) = true -> main_read_pos_before_fix p (serde_escape s) = None.
+Proof. intros K. unfold main_read_pos_before_fix. now rewrite (read_with_escape_fails _ _ K). Qed.
 
 Lemma validator_read_fails_before_fix p s :
-  (val_pos_borrowed p && needs_escape s) = true -> validator_read_pos p (serde_escape s) = None.
-Proof. intros K. unfold validator_read_pos. now apply read_with_escape_fails. Qed.
+  (val_pos_borrowed_before_fix p && needs_escape s) = true -> val_read_pos_before_fix p (serde_escape s) = None.
+Proof. intros K. unfold val_read_pos_before_fix. now apply read_with_escape_fails. Qed.
 
 (** * accepted inputs *)
 
@@ -208,7 +208,7 @@ Qed.
 
 Lemma cp_wedge_before_fix dst src lp :
   cp_logical_path dst src = Ok lp -> needs_escape lp = true ->
-  rocfl_read_pos PLogicalPath (serde_escape lp) = None.
+  main_read_pos_before_fix PLogicalPath (serde_escape lp) = None.
 Proof. intros _ K. apply rocfl_read_wedge_before_fix. now rewrite K. Qed.
 
 (** * the content directory names create_object accepts (repo.rs:579-590) *)
